@@ -227,6 +227,9 @@ def judge_c02(spec, gs, tbs, inputs, diags, dumps, maps, tdiffs, byk, jobs, info
             ex = model.expect(g, tb, data)
             if ex.res.hang: continue
             C['evaluations'] += 1
+            if r.res == -1 and ex.ok:
+                # not a plain rejection: the evaluation of an accepted input was abandoned by an exception out of the value plumbing
+                viol(out, g, data, 0, 'accepted input: evaluation abandoned by %s after the calls %s' % (r.extra[:120], model.mask_positions(r.events)[-200:])); continue
             if (r.res == 1) != ex.ok: C['acceptance_disagreements_left_to_C01'] += 1; continue
             got = model.mask_positions(_COPYEV.sub('', r.events)); want = model.mask_positions(ex.events)
             C['functor_calls_observed'] += got.count(';')
@@ -251,11 +254,12 @@ def judge_c09(spec, gs, tbs, inputs, diags, dumps, maps, tdiffs, byk, jobs, info
         if g.has_error() or not parseable(gi, gs, tbs, diags, tdiffs, need_match=False, lr1_only=True): C['grammars_skipped'] += 1; continue
         tb = tbs[gi]
         for idx, data in enumerate(inputs[gi]):
-            ex = None
-            for mode in (0, 4):
+            exs = {}
+            for mode, opt in ((0, (True, True)), (4, (True, True)), (8, (True, False)), (9, (False, False))):
                 r = byk.get((gi, idx, mode))
                 if r is None: continue
-                if ex is None: ex = model.expect(g, tb, data)
+                if opt not in exs: exs[opt] = model.expect(g, tb, data, skip_ws=opt[0], skip_nl=opt[1])
+                ex = exs[opt]
                 C['evaluations'] += 1
                 if (r.res == 1) != ex.ok: C['acceptance_disagreements_left_to_C01'] += 1; continue
                 kind = 'accepted' if ex.ok else ('lexical' if ex.res.lexerr is not None else 'syntax')
@@ -693,7 +697,7 @@ def judge_c13(spec, gs, tbs, inputs, diags, dumps, maps, tdiffs, byk, jobs, info
                 if (a.res, a.root, a.events, a.stream) != (b.res, b.root, b.events, b.stream):
                     viol(out, g, data, 20, 'context_parse differs from parse on a grammar that ignores the context: (%s,%s,%s) vs (%s,%s,%s)' % (b.res, b.root, b.events[:100], a.res, a.root, a.events[:100]))
                 continue
-            for mode in (20, 21, 22, 23, 24):
+            for mode in (20, 21, 22, 23, 24, 25, 26, 27, 28, 29, 30):
                 r = byk.get((gi, idx, mode))
                 if r is None: continue
                 ex = model.expect(g, tb, data, ctx_mode=mode)
@@ -704,13 +708,14 @@ def judge_c13(spec, gs, tbs, inputs, diags, dumps, maps, tdiffs, byk, jobs, info
                 m = re.search(r'ctx=(-?\d+),(\d+),(\d+),(\d+)', r.extra)
                 cnt, copies, moves, momoves = (int(x) for x in m.groups()) if m else (None, None, None, None)
                 if (r.res == 1) != ex.ok: C['acceptance_disagreements_left_to_C01'] += 1; continue
-                cat = {20: 'lvalue', 21: 'const lvalue', 22: 'rvalue temporary', 23: 'move-only lvalue', 24: 'lvalue (verbose)'}[mode]
+                cat = {20: 'lvalue', 21: 'const lvalue', 22: 'rvalue temporary', 23: 'move-only lvalue', 24: 'lvalue (verbose)', 25: 'lvalue, overload (ctx, buffer, stream)', 26: 'rvalue temporary, overload (ctx, buffer, stream)',
+                       27: 'lvalue, overload (ctx, buffer)', 28: 'named move-only object passed with std::move, overload (ctx, buffer, stream)', 29: 'named object passed with std::move, with options', 30: 'named move-only object passed with std::move, overload (ctx, buffer)'}[mode]
                 if got != want:
                     viol(out, g, data, mode, '%s context: functor log %s expected %s ("=" same object, "!" other object, c/m constness, #n calls seen so far)' % (cat, got[:250], want[:250]))
                     continue
                 if copies or moves or momoves:
                     viol(out, g, data, mode, '%s context was copied %d / moved %d times by the library' % (cat, copies, moves + momoves))
-                if mode in (20, 23, 24) and cnt != ex.xcount:
+                if mode in (20, 23, 24, 25, 27, 28, 29, 30) and cnt != ex.xcount:
                     viol(out, g, data, mode, '%s context: caller sees %s mutations after the call, %d contextual reductions happened' % (cat, cnt, ex.xcount))
         if len(out['samples']) < 2 and inputs[gi] and isctx:
             d = inputs[gi][len(inputs[gi]) // 2]
